@@ -26,7 +26,11 @@ def run(chk, tmp, replay=None):
         chk.cov["evaluations"] += 1
         chk.cov["traces_validated_against_impl"] += 1
         chk.count((r["graph"], r["op"]), nontrivial=not r["graph"].startswith("chain"))
-        if r["err"]:
+        if r.get("timed_out"):
+            chain_ms = max([x["ms"] for x in rows if x["op"] == r["op"] and x["graph"].startswith("chain") and x["v"] >= r["v"]] or [1.0])
+            chk.violation(f"traversal:{r['op']}:time-blow-up", f"{r['op']} on {r['graph']} (|V|={r['v']}, |E|={r['e']}) did not return within 20 s; the same operation on a chain of at least that size "
+                          f"takes {chain_ms:.2f} ms and its counted loops did {r['work']} iterations: the work is done outside the counted traversal", r)
+        elif r["err"]:
             chk.violation(f"traversal:{r['op']}:error", f"{r['op']} on {r['graph']} failed: {r['err']}", r)
         elif r["work"] > r["bound"]:
             w = worst.get(r["op"])
